@@ -522,6 +522,14 @@ def c04_oracle(c, obs):
         weighted = bool(k["w"])
         if weighted and any(w is None for (_, _, w) in so["edges"]):
             continue    # outside the property's quantifier
+        if weighted and any(w is not None and w < 0 for (_, _, w) in so["edges"]):
+            # a negative weight (corpus witness of F22 only; never generated): outside the property's
+            # quantifier - the reference below is plain Dijkstra.  The call still takes part in the
+            # model correspondence (outcome - Err ContradictoryPaths included - and answer), and it must
+            # not panic: C20
+            if ent["code"] in (100, 101):
+                msgs.append("%s: panic / no answer (outcome %d)" % (tag, ent["code"]))
+            continue
         if ent["code"] != 0:
             msgs.append("%s: outcome %d on a valid call" % (tag, ent["code"]))
             continue
